@@ -19,14 +19,14 @@ LEVEL = "model_checking"
 TIMES = [0, 1, 2, 3]
 
 VARIANTS = {
-    "F": {1: ["ref", "K"], 2: ["bin", "+", ["ref", "X"], ["num", 1.0]]},
+    "F": {1: ["ref", "K"], 2: ["bin", "+", ["ref", "X"], ["num", 1.0]], 3: ["bin", "*", ["ref", "S"], ["num", 0.5]]},     # 3: feedback, the trajectory depends on dt
     "X": {1: ["bin", "*", ["ref", "K"], ["num", 2.0]], 2: ["bin", "+", ["ref", "K"], ["num", 10.0]]},
     "Y": {1: ["bin", "+", ["ref", "S"], ["ref", "X"]], 2: ["bin", "-", ["bin", "*", ["ref", "S"], ["num", 2.0]], ["ref", "X"]],
           3: ["bin", "+", ["ref", "S"], ["ref", "W"]]},
     # W exists from the start but has no equation until a history gives it one (an undefined converter evaluates to 0.0)
     "W": {0: ["num", 0.0], 1: ["bin", "*", ["ref", "K"], ["num", 3.0]], 2: ["bin", "+", ["ref", "X"], ["num", 1.0]]},
 }
-INITS = {"one": ["num", 1.0], "seven": ["num", 7.0], "K": ["ref", "K"]}
+INITS = {"one": ["num", 1.0], "seven": ["num", 7.0], "K": ["ref", "K"], "K2": ["ref", "K2"]}      # K2: a second constant (an initial value swapped for another element of the same kind)
 KVALS = [2.0, 5.0]
 
 RUNSETS = [["Y"], ["S", "F"], ["X", "Y", "S"], ["Y", "X"], ["F", "K", "Y", "S", "X", "W"]]
@@ -35,6 +35,7 @@ RUNSETS = [["Y"], ["S", "F"], ["X", "Y", "S"], ["Y", "X"], ["F", "K", "Y", "S", 
 def spec_of(defs):
     return {"name": "m", "start": 0, "stop": 3, "dt": 1, "elements": {
         "K": {"kind": "constant", "eq": ["num", defs["K"]]},
+        "K2": {"kind": "constant", "eq": ["num", 4.0]},
         "X": {"kind": "converter", "eq": VARIANTS["X"][defs["X"]]},
         "F": {"kind": "flow", "eq": VARIANTS["F"][defs["F"]]},
         "S": {"kind": "stock", "init": INITS[defs["init"]], "eq": ["ref", "F"]},
@@ -48,7 +49,7 @@ class Impl:
         self.defs = {"K": 2.0, "X": 1, "F": 1, "Y": 1, "init": "one", "W": 0}
         sp = spec_of(self.defs)
         del sp["elements"]["W"]
-        self.m, self.env = refsd.build_model(sp, order=["K", "X", "F", "S", "Y"])
+        self.m, self.env = refsd.build_model(sp, order=["K", "K2", "X", "F", "S", "Y"])
         self.env["W"] = self.m.converter("W")      # created, never given an equation
         self.scenario = None
 
@@ -65,6 +66,7 @@ class System:
             for v in (1, 2):
                 ops.append(["set_eq", el, v])
         ops.append(["set_eq", "Y", 3])
+        ops.append(["set_eq", "F", 3])
         for i in INITS:
             ops.append(["set_init", i])
         for k in KVALS:
@@ -77,6 +79,8 @@ class System:
         ops.append(["refused_init", 7])
         ops.append(["refused_init", 1])
         ops.append(["reassign_S"])        # the stock's (unchanged) equation assigned again: its function is rebuilt
+        ops.append(["plot_dt", "S"])      # the element plotted on another time grid (a dataframe is returned, nothing is edited)
+        ops.append(["plot_dt", "Y"])
         ops.append(["reset_cache"])
         for i in range(len(RUNSETS)):
             ops.append(["run", i])
@@ -119,6 +123,8 @@ class System:
                         raise
             elif k == "reassign_S":
                 env["S"].equation = env["F"]
+            elif k == "plot_dt":
+                env[op[1]].plot(starttime=0, stoptime=3, dt=0.5, return_df=True)
             elif k == "eval":
                 v = env[op[1]](op[2])
                 w = self._ref(ref).value(op[1], op[2])
@@ -218,8 +224,23 @@ def part_c(ctx):
             v = run_order(how, list(order))
             if v:
                 ctx.violation("C08/ambiguous/direct-%s/%s-first" % (how, order[0][0]), {"part": "c", "how": how, "order": [list(x) for x in order]}, v)
-    return {"orders": n, "rule": "every sequence of 4 distinct direct evaluations out of {R,Y,Z} x {0,1} (R stochastic, Y = R*1, Z = R*1), each value "
+    # size ladder: a stochastic element asked at 1300 different times, then again at the first ones
+    v = run_long()
+    if v:
+        ctx.violation("C08/ambiguous/direct-call/after-1300-times", {"part": "c", "long": True}, v)
+    return {"orders": n, "long_run_times": 1300, "rule": "every sequence of 4 distinct direct evaluations out of {R,Y,Z} x {0,1} (R stochastic, Y = R*1, Z = R*1), each value "
                                  "asked twice, through element(t) and Model.evaluate_equation: Y(t) = R(t) = Z(t) and a repeated call returns the same number"}
+
+
+def run_long():
+    from checks import c08b
+    m, counter = c08b.build()
+    R, Y = m.converters["R"], m.converters["Y"]
+    first = {t: R(t) for t in range(0, 1300)}
+    for t in (0, 1, 2, 650, 1299):
+        if R(t) != first[t] or Y(t) != first[t]:
+            return "R(%d) was %r; after 1300 times were evaluated R(%d) = %r, Y(%d) = %r" % (t, first[t], t, R(t), t, Y(t))
+    return None
 
 
 def run_order(how, order):
@@ -240,6 +261,8 @@ def run_order(how, order):
 
 
 def replay(case):
+    if case.get("part") == "c" and case.get("long"):
+        return run_long()
     if case.get("part") == "c":
         return run_order(case["how"], [tuple(x) for x in case["order"]])
     if case.get("part") == "b":
